@@ -34,9 +34,16 @@ impl AymBackend for RecAy {
 }
 
 fn mk_vtx(frames: &[Vec<u8>], player_frequency: u8) -> Vtx {
+    mk_vtx_layout(frames, player_frequency, 1)
+}
+
+/// `layout`: the track's own channel layout field (0 = mono, 1..6 = ABC..CBA) - it pans the chip; how many channels the
+/// caller gets is the caller's choice
+fn mk_vtx_layout(frames: &[Vec<u8>], player_frequency: u8, layout: u64) -> Vtx {
     Vtx {
-        chip: vtx::SoundChip::AY,
-        stereo: vtx::Stereo::ABC,
+        chip: if layout % 2 == 0 { vtx::SoundChip::YM } else { vtx::SoundChip::AY },
+        stereo: match layout { 0 => vtx::Stereo::Mono, 1 => vtx::Stereo::ABC, 2 => vtx::Stereo::ACB, 3 => vtx::Stereo::BAC,
+                               4 => vtx::Stereo::BCA, 5 => vtx::Stereo::CAB, _ => vtx::Stereo::CBA },
         frequency: 1_773_400,
         player_frequency,
         loop_start_frame: 0,
@@ -73,7 +80,7 @@ fn player_runs(out: &mut Out, r: &mut Rng, count: u64) {
         let stereo = i % 2 == 1;
         LOG.with(|l| l.borrow_mut().clear());
         COUNT.with(|c| *c.borrow_mut() = 0);
-        let mut pl: Player<RecAy> = Player::new(mk_vtx(&frames, pf), rate, stereo);
+        let mut pl: Player<RecAy> = Player::new(mk_vtx_layout(&frames, pf, i / 2 % 7), rate, stereo);
         out.ev(json!({"ev":"track","frames":frames,"rate":rate,"pf":pf,"stereo":stereo}));
         let mut calls = 0;
         let mut seeks = 0;
